@@ -736,6 +736,21 @@ def body_hmc_proposal_reversible(case, ctx):
     c07.body_reversible(case, ctx)
 
 
+def _pt_cases():
+    """'each chain run under parallel tempering': real ladders of Gibbs / Metropolis / PCA / Hamiltonian chains (worker processes);
+    every exchange decision is judged against min(1, exp((1/T_i - 1/T_j)(L_j - L_i))) and every chain's current log-probability against
+    its own evaluation (the C08 swap history - same generator and body - whose decision clauses are also C01's)"""
+    from props import c08_tempering as c08
+
+    return c08.swap_cases()
+
+
+def _pt_body(case, ctx):
+    from props import c08_tempering as c08
+
+    return c08.body_swaps(case, ctx)
+
+
 SUBCHECKS = [
     Sub("first-attempt", lambda t: law_configs(), body_first_attempt, quick=96, thorough=800, shards_quick=16, shards_thorough=16, weight=400,
         shrink_budget=(10, 60), case_timeout=(300, 900), rule="T != 1 or limits / bounds or d >= 2, with a first-attempt acceptance rate in [0.02, 0.995]"),
@@ -749,6 +764,8 @@ SUBCHECKS = [
         rule=">= 1 wall reflection, or matrix mass, or T != 1"),
     Sub("hmc-extreme", lambda t: hmc_extreme_configs(), body_hmc_extreme, quick=60, thorough=1500, shards_quick=6, shards_thorough=16, weight=20,
         rule=">= 3 stored moves taken with unstable step sizes"),
+    Sub("tempering", lambda t: _pt_cases(), _pt_body, quick=48, thorough=1500, shards_quick=16, shards_thorough=16, weight=60,
+        rule=">= 1 accepted and >= 1 rejected exchange with N >= 3"),
     Sub("full-step", lambda t: law_configs(classes=("metropolis", "gibbs", "ensemble") if t == "quick" else ("metropolis", "gibbs", "ensemble", "pca", "hmc")), body_full_step, quick=32, thorough=160, shards_quick=8, shards_thorough=16,
         weight=3000, shrink_budget=(5, 30), case_timeout=(600, 1800), shrink=False, rule="T != 1 or limits / bounds or d >= 2"),
 ]
